@@ -1,5 +1,5 @@
 """property id -> check function(prop, tier, replay) -> exit code"""
-from . import router, reg, selector, framing, rpc, transcode, registry_chk, mount, deadline
+from . import router, reg, selector, framing, rpc, transcode, registry_chk, mount, deadline, proxy
 
 CHECKS = {
     "C01": router.run,
@@ -12,6 +12,7 @@ CHECKS = {
     "C08": rpc.run,
     "C14": rpc.run,
     "C18": rpc.run,
+    "C10": proxy.run,
     "C11": registry_chk.run,
     "C12": registry_chk.run,
     "C15": deadline.run,
